@@ -117,6 +117,9 @@ func main() {
 		for g := 1; g <= groups; g++ {
 			cases = append(cases, genC08Group(r, g, 5)...)
 		}
+		for g := 1; g <= groups/4; g++ {
+			cases = append(cases, genC08RootOrder(r, 100000+g)...)
+		}
 		for i := 0; i < *n/2; i++ {
 			cases = append(cases, genC08Multi(r))
 		}
@@ -239,7 +242,8 @@ func fixedC08() []*Case {
 	return []*Case{
 		mk("fixed", []*Node{dir(".", file("a", 1)), dir(".")}, nil), // root 1 reported twice
 		mk("fixed", []*Node{dir("."), dir(".", file("a", 1))}, nil), // inside D: only the last root yields
-		mk("fixed", []*Node{dir(".", file("a", 1)), dir(".", file("b", 1)), dir(".", file("c", 1))}, nil),
+		// an extraction error in the first of three roots: the plugin's status must still report it
+		mk("fixed", []*Node{dir(".", file("a", 1)), dir(".", file("b", 1)), dir(".", file("c", 1))}, func(c *Case) { c.Extract[0].Err = true }),
 		mk("fixed", []*Node{dir(".", file("b", 1), file("a", 1))}, func(c *Case) { c.Extract[0].Pkgs[0].Name = "p"; c.Extract[1].Pkgs[0].Name = "p" }),
 		mk("fixed", []*Node{dir(".")}, func(c *Case) {
 			c.Dets = []Det{{Name: "det0", Findings: []Finding{{Pub: "ZZZ", Ref: "A9", Extra: "x"}, {Pub: "AAA", Ref: "R2", Extra: ""}, {Pub: "CVE", Ref: "A9", Extra: ""}}}}
